@@ -48,7 +48,9 @@ fn get_dependencies_from_type(
             SpecialRustType::Option(inner) => {
                 get_dependencies_from_type(inner, types, res, seen);
             }
-            SpecialRustType::Vec(inner) => {
+            SpecialRustType::Vec(inner)
+            | SpecialRustType::Array(inner, _)
+            | SpecialRustType::Slice(inner) => {
                 get_dependencies_from_type(inner, types, res, seen);
             }
             _ => {}
